@@ -20,6 +20,28 @@ TRUTHY = {'T', 'Ty'}
 FALSY = {'F', 'N', 'Fy'}
 
 
+def cmp_canon(op: ast.cmpop, l: str, r: str) -> tuple[str, bool] | None:
+    """One canonical positive atom per comparison + negation flag: `a != b` = not `a == b` (operands sorted), `a >= b` = not `a < b`,
+    `a > b` = `b < a`, `a <= b` = not `b < a` (total orders assumed: the library compares counters, sizes and timestamps)."""
+    if isinstance(op, (ast.Eq, ast.NotEq)):
+        if r < l:
+            l, r = r, l
+        return f'{l} == {r}', isinstance(op, ast.NotEq)
+    if isinstance(op, (ast.In, ast.NotIn)):
+        return f'{l} in {r}', isinstance(op, ast.NotIn)
+    if isinstance(op, (ast.Is, ast.IsNot)):
+        return f'{l} is {r}', isinstance(op, ast.IsNot)
+    if isinstance(op, ast.Lt):
+        return f'{l} < {r}', False
+    if isinstance(op, ast.GtE):
+        return f'{l} < {r}', True
+    if isinstance(op, ast.Gt):
+        return f'{r} < {l}', False
+    if isinstance(op, ast.LtE):
+        return f'{r} < {l}', True
+    return None
+
+
 def truth_of(v: str | None) -> bool | None:
     if v in TRUTHY:
         return True
@@ -105,17 +127,11 @@ class Facts:
         """`a == b` / `a != b` / `a in b` / `a not in b` as one atom (canonical positive form) + negation flag."""
         if isinstance(e, ast.Compare) and len(e.ops) == 1:
             op = e.ops[0]
-            pos = {ast.Eq: '==', ast.NotEq: '==', ast.In: 'in', ast.NotIn: 'in', ast.Is: 'is', ast.IsNot: 'is'}.get(type(op))
-            if pos is None:
-                return None
             if isinstance(op, (ast.Is, ast.IsNot)) and isinstance(e.comparators[0], ast.Constant) and e.comparators[0].value is None:
                 return None
-            l, r = U(e.left), U(e.comparators[0])
-            if pos == '==' and r < l:
-                l, r = r, l  # symmetric: one canonical operand order
-            text = f'{l} {pos} {r}'
-            if self.tracked(text):
-                return text, isinstance(op, (ast.NotEq, ast.NotIn, ast.IsNot))
+            cc = cmp_canon(op, U(e.left), U(e.comparators[0]))
+            if cc is not None and self.tracked(cc[0]):
+                return cc
         return None
 
     def eval(self, e: ast.AST, env: dict) -> bool | None:
@@ -333,9 +349,23 @@ class Facts:
                 self._havoc_nonlocal(env)
         return env
 
+    def _init_only(self, atom: str) -> bool:
+        """`x.attr` where attr is written by constructors only, anywhere in the library: a suspension cannot change it (configuration flags)."""
+        m = re.fullmatch(r'\w+\.(\w+)', atom)
+        if m is None or self.cg is None:
+            return False
+        attr = m.group(1)
+        memo = self.__dict__.setdefault('_init_only_memo', {})
+        if attr not in memo:
+            ws = self.cg.all_writes(attr)
+            memo[attr] = bool(ws) and all(w.unit.name == '__init__' for w in ws)
+        return memo[attr]
+
     def _havoc_nonlocal(self, env: dict) -> None:
         for a in list(env):
             if a.endswith('.get()') and a[:-6] in self.taskvars:
+                continue
+            if self._init_only(a):
                 continue
             if ('(' in a or '.' in a) and not (a in self.sticky_true and env[a] in TRUTHY):
                 del env[a]
@@ -363,12 +393,9 @@ def _props(e: ast.AST, out: set) -> None:
         if isinstance(op, (ast.Is, ast.IsNot)) and isinstance(rhs, ast.Constant) and rhs.value is None:
             out.add(('n', U(e.left)))
             return
-        pos = {ast.Eq: '==', ast.NotEq: '==', ast.In: 'in', ast.NotIn: 'in', ast.Is: 'is', ast.IsNot: 'is'}.get(type(op))
-        if pos is not None:
-            l, r = U(e.left), U(rhs)
-            if pos == '==' and r < l:
-                l, r = r, l
-            out.add(('t', f'{l} {pos} {r}'))
+        cc = cmp_canon(op, U(e.left), U(rhs))
+        if cc is not None:
+            out.add(('t', cc[0]))
             return
     out.add(('t', U(e)))
 
@@ -386,13 +413,10 @@ def _holds(e: ast.AST, val: dict) -> bool:
         if isinstance(op, (ast.Is, ast.IsNot)) and isinstance(rhs, ast.Constant) and rhs.value is None:
             r = val[('n', U(e.left))]
             return r if isinstance(op, ast.Is) else (not r)
-        pos = {ast.Eq: '==', ast.NotEq: '==', ast.In: 'in', ast.NotIn: 'in', ast.Is: 'is', ast.IsNot: 'is'}.get(type(op))
-        if pos is not None:
-            l, r = U(e.left), U(rhs)
-            if pos == '==' and r < l:
-                l, r = r, l
-            v = val[('t', f'{l} {pos} {r}')]
-            return v if isinstance(op, (ast.Eq, ast.In, ast.Is)) else (not v)
+        cc = cmp_canon(op, U(e.left), U(rhs))
+        if cc is not None:
+            v = val[('t', cc[0])]
+            return (not v) if cc[1] else v
     return val[('t', U(e))]
 
 
